@@ -41,6 +41,8 @@ func c03Ev(name string, idx int) {
 var c03Corpus = []c03Req{
 	{`{ me { name } }`, "", nil, true, true},
 	{`query A { me { id } } query B { me { name } }`, "B", nil, true, true},
+	{`{ me { name } }`, "Other", nil, false, true},                                            // a name requested that the (anonymous) document does not define
+	{`mutation { rename(name: "x") { id } }`, "M", nil, false, true},                        // the same for a mutation
 	{`query A { me { id } } query B { me { name } }`, "C", nil, false, true},               // unknown operation name
 	{`query A { me { id } } query B { me { name } }`, "", nil, false, true},               // ambiguous
 	{`{ me { name }`, "", nil, false, false},                                                  // parse error
